@@ -1,3 +1,5 @@
+//go:build !verifnonode
+
 package main
 
 import (
@@ -66,24 +68,24 @@ func (e *Exec) nodeCheckState(step, hi int, n *nodeRef) *Violation {
 			want = append(want, n.table[b])
 		}
 	}
-	got := h.Children()
-	if !intsEqual(got, want) {
+	got := hChildren(h)
+	if hookIter && !intsEqual(got, want) {
 		return e.viol("wrong-result", "C10-enumerate", step, "node %d (class %d): children enumerate as %v, ascending byte order is %v", hi, h.Class(), trunc(got), trunc(want))
 	}
-	back := h.ChildrenBackward()
+	back := hChildrenBackward(h)
 	for i := range back {
 		if len(back) != len(want) || back[i] != want[len(want)-1-i] {
 			return e.viol("wrong-result", "C10-enumerate-backward", step, "node %d (class %d): descending enumeration %v is not the reverse of %v", hi, h.Class(), trunc(back), trunc(want))
 		}
 	}
-	if len(back) != len(want) {
+	if hookIter && len(back) != len(want) {
 		return e.viol("wrong-result", "C10-enumerate-backward", step, "node %d (class %d): descending enumeration has %d children, expected %d", hi, h.Class(), len(back), len(want))
 	}
-	if len(want) > 0 {
-		if f := h.First(); f != want[0] {
+	if hookIter && len(want) > 0 {
+		if f := hFirst(h); f != want[0] {
 			return e.viol("wrong-result", "C10-first", step, "node %d (class %d): first child %d, expected %d", hi, h.Class(), f, want[0])
 		}
-		if l := h.Last(); l != want[len(want)-1] {
+		if l := hLast(h); l != want[len(want)-1] {
 			return e.viol("wrong-result", "C10-last", step, "node %d (class %d): last child %d, expected %d", hi, h.Class(), l, want[len(want)-1])
 		}
 	}
@@ -328,8 +330,8 @@ func (e *Exec) runNode() (v *Violation) {
 					}
 					// the survivor must be the registered one
 					for b := 0; b < 256; b++ {
-						if n.table[b] >= 0 {
-							if id := n.h.First(); id != n.table[b] {
+						if n.table[b] >= 0 && hookIter {
+							if id := hFirst(n.h); id != n.table[b] {
 								sv = e.viol("wrong-result", "C10-collapse", i, "node %d collapsed into child %d, the remaining registered child is %d", s.T, id, n.table[b])
 							}
 						}
